@@ -350,6 +350,19 @@ def Kids.noRun : Kids → Bool
   | .cons m _ rest => m.noRun && rest.noRun
 end
 
+/-! ### `Module::toJson()` — the canonical rendering compared with the harness
+
+`vc n` = number of variables in `vars()` of module `n` (`"vars"` is written only when there are some); children are rendered in
+registration order with their `required` flag.  Structural recursion: total on every (finite, acyclic) tree — that `add()` cannot
+build anything else is patches/C11-08. -/
+mutual
+def Mod.jsonStr (vc : Nat → Nat) : Mod → String
+  | .node i ks => toString i.id ++ (if vc i.id = 0 then "" else "v" ++ toString (vc i.id)) ++ "[" ++ ks.jsonStr vc ++ "]"
+def Kids.jsonStr (vc : Nat → Nat) : Kids → String
+  | .nil => ""
+  | .cons m req rest => (if req then "1:" else "0:") ++ m.jsonStr vc ++ (match rest with | .nil => "" | _ => ",") ++ rest.jsonStr vc
+end
+
 /-! ### forest of free-standing modules: construction and `Module::add()` (driver level) -/
 
 abbrev Forest := List Mod
@@ -387,14 +400,14 @@ def Forest.find (f : Forest) (n : Nat) : Option Mod := f.findSome? (Mod.find n)
 def Forest.root? (f : Forest) (n : Nat) : Option Mod := List.find? (fun m => m.id == n) f
 
 /-- `parent.add(child, required)`.  Outer `none` = the request is not about a forest
-(unknown id, or it would close a cycle); inner Bool = what `add()` returns. -/
+(unknown id); inner Bool = what `add()` returns. -/
 def Forest.add (f : Forest) (p c : Nat) (r : Bool) : Option (Forest × Bool) :=
   match f.find p, f.find c with
   | some pm, some cm =>
     match f.root? c with
     | none => some (f, false)                       -- `child->parent_ != nullptr`
     | some croot =>
-      if croot.ids.contains p then none             -- p inside c's own tree: not a tree any more
+      if croot.ids.contains p then some (f, false)  -- p inside c's own tree: refused (patches/C11-08)
       else if pm.info.st != .none then some (f, false)
       else if !cm.info.named && pm.kids.hasUnnamed then some (f, false)   -- name duplicated ("")
       else
